@@ -91,3 +91,61 @@ func H_C05_filter_chains() {
 	}
 	vReach("end")
 }
+
+// vZlibStoredSym wraps data (which may hold symbolic bytes) in a zlib stream of one stored deflate block. The Adler-32
+// trailer is computed the way hash/adler32 does for short inputs (sums first, one reduction at the end), so that the
+// reader's own checksum over the same symbolic bytes is the same term.
+func vZlibStoredSym(data []byte) []byte {
+	n := len(data)
+	s1, s2 := uint32(1), uint32(0)
+	for _, b := range data {
+		s1 += uint32(b)
+		s2 += s1
+	}
+	s1 %= 65521
+	s2 %= 65521
+	ad := s2<<16 | s1
+	out := []byte{0x78, 0x01, 0x01, byte(n), byte(n >> 8), byte(^n), byte(^n >> 8)}
+	out = append(out, data...)
+	return append(out, byte(ad>>24), byte(ad>>16), byte(ad>>8), byte(ad))
+}
+
+// H_C05_flate_real_zlib: FlateDecode through the real compress/zlib (interpreted): what a conforming encoder produced
+// decodes to the original bytes, alone, under ASCIIHex, and with the PNG Up predictor; a corrupted checksum is an error,
+// not wrong bytes.
+//
+//symgo:harness prop=C05 kernel=K5-flate-real-zlib
+//symgo:desc payload of 1..3 fully symbolic bytes, deflate-encoded by the harness as one stored block with a correct Adler-32 (compressed blocks are not generated); pipeline enumerated: FlateDecode, [/Fl] with DecodeParms [null], FlateDecode with Predictor 12 / Columns = payload length (one row tagged Up after a zero row, i.e. the payload itself), or FlateDecode of a stream whose last checksum byte is altered by a symbolic non-zero XOR mask: Stream.Decode returns exactly the payload, or - corrupted checksum - an error
+func H_C05_flate_real_zlib() {
+	n := vAnyIntIn(1, 3)
+	payload := vAnyBytes(n)
+	mode := vAnyIntIn(0, 3)
+	var s *Stream
+	switch mode {
+	case 0:
+		s = &Stream{Dict: Dict{"Filter": Name("FlateDecode")}, Data: vZlibStoredSym(payload)}
+	case 1:
+		s = &Stream{Dict: Dict{"Filter": Array{Name("Fl")}, "DecodeParms": Array{Null{}}}, Data: vZlibStoredSym(payload)}
+	case 2:
+		row := append([]byte{2}, payload...) // PNG row: tag Up, predicted against an all-zero previous row = the payload
+		s = &Stream{Dict: Dict{"Filter": Name("FlateDecode"), "DecodeParms": Dict{"Predictor": Int(12), "Columns": Int(n)}}, Data: vZlibStoredSym(row)}
+	default:
+		z := vZlibStoredSym(payload)
+		mask := vAnyByte()
+		vAssume(mask != 0)
+		z[len(z)-1] ^= mask
+		s = &Stream{Dict: Dict{"Filter": Name("FlateDecode")}, Data: z}
+	}
+	out, err := s.Decode()
+	if mode == 3 {
+		vAssert("corrupted-checksum-is-an-error", err != nil)
+		vReach("corrupt")
+		return
+	}
+	vAssert("decodes", err == nil)
+	vAssert("length", len(out) == n)
+	for i := 0; i < n && i < len(out); i++ {
+		vAssert("roundtrip", out[i] == payload[i])
+	}
+	vReach("end")
+}
